@@ -2,6 +2,7 @@ import PytypeModel.Proofs.BlocksOrderNodes
 import PytypeModel.Proofs.BlocksSurgery
 import PytypeModel.Proofs.BlocksPopBlock
 import PytypeModel.Proofs.BlocksSetupExcept
+import PytypeModel.Proofs.BlocksSetupExceptGen
 
 /-! # C16 — every compiled code object becomes a well-formed ordered block graph
 
@@ -260,9 +261,23 @@ theorem kept_starts_distinct (ops : List PreOp) (entries : List ExcEntry) (ks : 
     (h : kept ops entries = .ok ks) : ks.Pairwise (fun a b => a.start ≠ b.start) :=
   (keptFrom_spec ops entries [] ks h).2
 
--- OPEN  try_ranges_closed (without `stopsOnOps`): when `e.end` is not an instruction offset the POP_BLOCK is filed
---       after the largest key below it, which may itself be a marker of an earlier range; the statement then needs
---       an invariant over the intermediate dicts.  Such streams are covered by the exact correspondence only.
+/-- **every try range that is opened is closed** — the guard `stopsOnOps` replaced by the weaker `endsFresh`: an entry
+whose `end` falls *between* two instructions must not share its last instruction with an earlier kept entry (then the
+largest dict key below `e.end` — where `_add_exception_block` files the POP_BLOCK — is that instruction itself and not
+a marker).  `endR ops e` is the entry's last instruction (`e.end` itself when it is one).  Both guards are evaluated by
+the driver on every real stream; `endsFresh` held on all of them so far (the evidence reports the count). -/
+theorem try_ranges_closed (ops : List PreOp) (entries : List ExcEntry) (out : List XOp)
+    (hev : evenOffs ops = true) (hfr : endsFresh ops entries = true) (hsp : startsPos ops entries = true)
+    (h : addSetupExcept ops entries = .ok out) :
+    ∃ ks, kept ops entries = .ok ks ∧
+      (∀ e ∈ ks,
+        (∃ x ∈ out, x.off = 2 * e.start - 1 ∧ x.cls = Cls.SETUP_EXCEPT_311 ∧ x.pre = some (2 * e.target)) ∧
+        (∃ r, endR ops e = some r ∧ ∃ y ∈ out, y.off = 2 * r + 1 ∧ y.cls = Cls.POP_BLOCK)) ∧
+      (∀ o ∈ ops, ∃ x ∈ out, x.off = 2 * o.off ∧ x.cls = o.cls ∧ x.argval = o.argval ∧ x.pre = none) :=
+  addSetupExcept_closedR ops entries out hev hfr hsp h
+
+-- OPEN  the statement without `endsFresh`: two kept ranges that end between the same two instructions put the second
+--       POP_BLOCK after the first one's marker (key `end + 1.0`); no compiler output seen so far does that.
 
 /-! ## non-vacuity -/
 
@@ -283,6 +298,15 @@ def tryTable : List ExcEntry := [⟨4, 22, 28, false⟩, ⟨28, 48, 58, true⟩,
 example : evenOffs tryPre = true ∧ stopsOnOps tryPre tryTable = true ∧ startsPos tryPre tryTable = true := by
   decide +kernel
 example : (kept tryPre tryTable).toOption = some [⟨4, 22, 28, false⟩] := by decide +kernel
+-- a range ending between two instructions (`stop = 5`, instructions at 4 and 8): outside `stopsOnOps`, inside `endsFresh`;
+-- the POP_BLOCK is filed after the instruction at 4
+example : (stopsOnOps [⟨0, Cls.RESUME, 0, 1⟩, ⟨2, Cls.NOP, 0, 2⟩, ⟨4, Cls.NOP, 0, 2⟩, ⟨8, Cls.PUSH_EXC_INFO, 0, 3⟩]
+      [⟨2, 5, 8, false⟩], endsFresh [⟨0, Cls.RESUME, 0, 1⟩, ⟨2, Cls.NOP, 0, 2⟩, ⟨4, Cls.NOP, 0, 2⟩,
+      ⟨8, Cls.PUSH_EXC_INFO, 0, 3⟩] [⟨2, 5, 8, false⟩]) = (false, true) := by decide +kernel
+example : ((addSetupExcept [⟨0, Cls.RESUME, 0, 1⟩, ⟨2, Cls.NOP, 0, 2⟩, ⟨4, Cls.NOP, 0, 2⟩, ⟨8, Cls.PUSH_EXC_INFO, 0, 3⟩]
+      [⟨2, 5, 8, false⟩]).toOption.map (·.map fun x => (x.off, x.cls))) =
+    some [(0, Cls.RESUME), (3, Cls.SETUP_EXCEPT_311), (4, Cls.NOP), (8, Cls.NOP), (9, Cls.POP_BLOCK),
+          (16, Cls.PUSH_EXC_INFO)] := by decide +kernel
 -- two adjacent ranges (the first ends where the second starts, 2 bytes apart): four distinct markers
 example : ((addSetupExcept [⟨0, Cls.RESUME, 0, 1⟩, ⟨2, Cls.NOP, 0, 2⟩, ⟨4, Cls.NOP, 0, 3⟩, ⟨6, Cls.NOP, 0, 4⟩,
       ⟨8, Cls.PUSH_EXC_INFO, 0, 5⟩] [⟨2, 2, 8, false⟩, ⟨4, 6, 8, false⟩]).toOption.map
